@@ -7,22 +7,22 @@ import SFModel.Drv.SetOps
 namespace SF.Drv.ConcatH
 open SF SExp SF.SetOps SF.Concat SF.Drv.SetOpsH
 
-def catCfg (classes : List Int) : Cfg Int :=
+private def catCfg (classes : List Int) : Cfg Int :=
   ⟨drvOrd classes, fun n => 1000000 + (n : Int), fun k l => 10000000 + 1000 * k + l⟩
 
-def tokIsna (t : String) : Bool := t == "nan" || t == "N" || t == "nat"
+private def tokIsna (t : String) : Bool := t == "nan" || t == "N" || t == "nat"
 
-def strs? : SExp → Option (List String) := atoms?
+private def strs? : SExp → Option (List String) := atoms?
 
-def ofStrs (l : List String) : SExp := .list (l.map .atom)
+private def ofStrs (l : List String) : SExp := .list (l.map .atom)
 
-def sidx? : SExp → Option (Idx Int)
+private def sidx? : SExp → Option (Idx Int)
   | .list [k, ls] => idx? k ls
   | _ => none
 
-def ofIdx (i : Idx Int) : SExp := .list [ofKind i.kind, ofInts i.labels]
+private def ofIdx (i : Idx Int) : SExp := .list [ofKind i.kind, ofInts i.labels]
 
-def indexArg? : SExp → Option (IndexArg Int)
+private def indexArg? : SExp → Option (IndexArg Int)
   | .atom "N" => some .none
   | .atom "A" => some .auto
   | .list [k, ls] => do
@@ -30,53 +30,53 @@ def indexArg? : SExp → Option (IndexArg Int)
       pure (.given ls k)
   | _ => none
 
-def optSidx? : SExp → Option (Option (Idx Int))
+private def optSidx? : SExp → Option (Option (Idx Int))
   | .atom "N" => some none
   | e => (sidx? e).map some
 
-def block? : SExp → Option (Block String)
+private def block? : SExp → Option (Block String)
   | .list (k :: cols) => do
       let k ← kind? k; let cols ← cols.mapM strs?
       pure ⟨k, cols⟩
   | _ => none
 
-def tb? : SExp → Option (TB String)
+private def tb? : SExp → Option (TB String)
   | .list bs => bs.mapM block?
   | _ => none
 
-def ofColumns (cs : List (Kind × List String)) : SExp :=
+private def ofColumns (cs : List (Kind × List String)) : SExp :=
   .list (cs.map fun (k, c) => .list [ofKind k, ofStrs c])
 
 /-- `(bf ikind (ilabels) ckind (clabels) (blocks…))` -/
-def bframe? : SExp → Option (BFrame Int String)
+private def bframe? : SExp → Option (BFrame Int String)
   | .list [.atom "bf", ik, il, ck, cl, tb] => do
       let i ← idx? ik il; let c ← idx? ck cl; let tb ← tb? tb
       pure ⟨i, c, tb⟩
   | _ => none
 
-def sframe? (e : SExp) : Option (Frame Int String) := (bframe? e).map (·.toFrame)
+private def sframe? (e : SExp) : Option (Frame Int String) := (bframe? e).map (·.toFrame)
 
-def ofSFrame (f : Frame Int String) : SExp :=
+private def ofSFrame (f : Frame Int String) : SExp :=
   .list [.atom "fr", ofKind f.index.kind, ofInts f.index.labels, ofKind f.columns.kind,
     ofInts f.columns.labels, .list (f.cols.map ofStrs)]
 
 /-- `(sr kind (labels) (cells))` with token cells -/
-def sseries? : SExp → Option (Series Int String)
+private def sseries? : SExp → Option (Series Int String)
   | .list [.atom "sr", k, ls, vs] => do
       let i ← idx? k ls; let vs ← strs? vs
       pure ⟨i, vs⟩
   | _ => none
 
-def ofSSeries (s : Series Int String) : SExp :=
+private def ofSSeries (s : Series Int String) : SExp :=
   .list [.atom "sr", ofKind s.index.kind, ofInts s.index.labels, ofStrs s.values]
 
-def keyed? {γ : Type} (p : SExp → Option γ) : SExp → Option (Int × γ)
+private def keyed? {γ : Type} (p : SExp → Option γ) : SExp → Option (Int × γ)
   | .list [k, x] => do
       let k ← int? k; let x ← p x
       pure (k, x)
   | _ => none
 
-def listOf? {γ : Type} (p : SExp → Option γ) : SExp → Option (List γ)
+private def listOf? {γ : Type} (p : SExp → Option γ) : SExp → Option (List γ)
   | .list xs => xs.mapM p
   | _ => none
 
